@@ -380,7 +380,15 @@ def rule_E9(F, R):
             cl = [x for x in walk(e['args'][-1]) if x['k'] == 'Closure'] if len(e['args']) == 2 else []
             ct = lib.ithir.get(canon(cl[0]['def'])) if cl else None
             if ct is not None and any(x['k'] == 'Call' and (callee_name(x) or '') in ('std::rc::Rc::into_raw', 'std::rc::Rc::as_ptr') for x in walk(ct['body'])): by_addr.append(e)
-    ok = len(by_addr) == 1 and not through_find(by_addr[0]['args'][0])
+    srcs = [e['args'][0] for e in by_addr]
+    if not by_addr:
+        # the same count written as a loop: `for node in NODES { pointers.insert(Rc::into_raw(..node..)) }`
+        for m in walk(t['body']):
+            if m['k'] == 'Match' and m.get('source') == 'ForLoopDesugar':
+                if any(x['k'] == 'Call' and (callee_name(x) or '') in ('std::rc::Rc::into_raw', 'std::rc::Rc::as_ptr') for x in walk(m['arms'][0]['body'])) and \
+                        any(x['k'] == 'Call' and (callee_name(x) or '').endswith('Set::insert') for x in walk(m['arms'][0]['body'])):
+                    by_addr.append(m); srcs.append(m['scrutinee'])
+    ok = len(by_addr) == 1 and not through_find(srcs[0])
     R.count('E9:address-counts', len(by_addr)); R.obligation(ok, 'E9 duplicates')
     if not ok:
         R.violation(fn + ' / E9 / count by address', 'E9', 'the count of distinct addresses must run over the nodes of the diagram itself (node_list(root)); %s' % (
